@@ -16,10 +16,10 @@ import resume as R
 JOBS = max(1, min(4, V.NPROC))
 
 
-def run_scenario(exe, lines, timeout=900):
+def run_scenario(exe, lines, timeout=900, cwd=None):
     try:
         p = subprocess.run([exe], input="\n".join(lines) + "\n", stdout=subprocess.PIPE, stderr=subprocess.PIPE,
-                           text=True, errors="replace", timeout=timeout)
+                           text=True, errors="replace", timeout=timeout, cwd=cwd)
         return p.returncode, p.stdout.split("\n"), p.stderr
     except subprocess.TimeoutExpired:
         return 124, [], "TIMEOUT"
@@ -128,7 +128,7 @@ def run_cases(exe, cases, d, keep=False, callback=None):
     """-> per case: findings, or (findings, callback(c, parsed runs)) when a callback is given"""
     def one(c):
         lines = R.scenario(c, d)
-        rc, out, err = run_scenario(exe, lines)
+        rc, out, err = run_scenario(exe, lines, cwd=d)
         c["_nsteps"] = sum(1 for l in out if l.startswith("STEP"))
         F = judge(c, d, out, rc, err)
         extra = None
